@@ -1048,19 +1048,38 @@ impl<'a> CExec<'a> {
     }
 
     fn enum_value(&self, id: &ast::ScopedIdentifier) -> Option<Value> {
+        // C++ lookup of `P::Q::V` from the namespace of the executing function outwards: the path names either the enum itself
+        // (`E::V`, `N::E::V`) or the scope that declares an unscoped enum (`V`, `N::V`)
         let name = last_name(id);
-        for (ei, e) in self.enums.iter().enumerate() {
-            if id.identifiers.len() >= 2 {
-                let scope = &id.identifiers[id.identifiers.len() - 2].node;
-                if !e.name.ends_with(scope.as_str()) {
-                    continue;
+        let path: Vec<&str> = id.identifiers[..id.identifiers.len() - 1].iter().map(|i| i.node.as_str()).collect();
+        let path = path.join("::");
+        let ns = self.ns_stack.last().cloned().unwrap_or_default();
+        let mut prefix = ns;
+        loop {
+            // candidate scope: prefix + path (prefix ends with :: or is empty)
+            let scope = if path.is_empty() { prefix.trim_end_matches("::").to_string() } else { format!("{}{}", prefix, path) };
+            for (ei, e) in self.enums.iter().enumerate() {
+                let parent = match e.name.rfind("::") {
+                    Some(i) => &e.name[..i],
+                    None => "",
+                };
+                let names_enum = !path.is_empty() && e.name == scope;
+                let names_enclosing_scope = parent == scope;
+                if names_enum || names_enclosing_scope {
+                    if let Some((_, v)) = e.values.iter().find(|(n, _)| n == name) {
+                        return Some(Value::Enum(ei as u32, *v));
+                    }
                 }
             }
-            if let Some((_, v)) = e.values.iter().find(|(n, _)| n == name) {
-                return Some(Value::Enum(ei as u32, *v));
+            if prefix.is_empty() {
+                return None;
             }
+            let trimmed = prefix.trim_end_matches("::");
+            prefix = match trimmed.rfind("::") {
+                Some(i) => trimmed[..i + 2].to_string(),
+                None => String::new(),
+            };
         }
-        None
     }
 
     // ---------------------------------------------------------------------------------------------
